@@ -103,7 +103,12 @@ Record tl_policy := mkPolicy {
 
 Record tl_consts := mkTlConsts {
   tc_legacy_version : Z; tc_current_version : Z;
-  tc_btc : tl_policy; tc_lbtc_legacy : tl_policy; tc_lbtc_v7 : tl_policy }.
+  tc_btc : tl_policy; tc_lbtc_legacy : tl_policy; tc_lbtc_v7 : tl_policy;
+  tc_csv_btc : Z; tc_csv_lbtc : Z     (* Validator.GetCSVHeight() of the Bitcoin / Liquid validator *) }.
+
+(* validator.GetCSVHeight() for the swap's chain *)
+Definition csv_height (tc : tl_consts) (d : swap_data) : Z :=
+  if String.eqb (get_chain d) btc_chain then tc_csv_btc tc else tc_csv_lbtc tc.
 
 Definition timelock_policy (tc : tl_consts) (d : swap_data) : option tl_policy :=
   let v := get_version d in
@@ -125,7 +130,7 @@ Inductive pay_kind := PKClaim | PKFee.
 Inductive spend_kind := SKPreimage | SKCsv | SKCoop.
 
 Inductive effect :=
-| EPersist (state : string) (d : swap_data)
+| EPersist (state : string) (d : swap_data) (ok : bool)      (* store write; ok = it became durable *)
 | ESend (peer : string) (m : wire_msg)
 | ERetransStart                                    (* MessengerManager.AddSender succeeded *)
 | ERetransStop
@@ -148,7 +153,7 @@ Record world := mkWorld {
   (* configuration *)
   w_swaps_allowed : bool; w_liquid_enabled : bool; w_bitcoin_enabled : bool;
   w_min_amount_msat : Z; w_peer_allowed : bool; w_peer_suspicious : bool;
-  w_wallet_asset : string; w_wallet_network : string; w_csv_height : Z;
+  w_wallet_asset : string; w_wallet_network : string;
   w_premium : option Z;                               (* premium.Setting.Compute for this peer/asset/direction/amount *)
   w_own_pubkey : string;                              (* pubkey of the swap's private key (crypto not modelled) *)
   w_hashes : list (string * string);                  (* preimage -> sha256, for the preimages in play *)
